@@ -9,6 +9,8 @@ import (
 	"context"
 	"fmt"
 	"io"
+	"net/http"
+	"net/http/httptest"
 	"os"
 	"reflect"
 	"sort"
@@ -161,6 +163,8 @@ func contentAlphabet(ext string) []version {
 		// keto's OPL grammar skips every top-level token outside a class declaration (that is how import and
 		// export lines are tolerated), so left-over bytes after the last class are part of a VALID document
 		out = append(out, version{name: "f1=V1+stray-tokens", file: f1, data: oplDoc("A") + " }}}", valid: true, ns: nsOf("A")})
+		// the same class name with different content: a reload that keeps the names must still take effect
+		out = append(out, version{name: "f1=V1+relation", file: f1, data: "import { Namespace } from \"@ory/keto-namespace-types\"\nclass A implements Namespace { related: { r: A[] } }\n", valid: true, ns: nsOf("A{r}")})
 	}
 	return out
 }
@@ -175,15 +179,29 @@ func names(ctx context.Context, h config.VerifHandler, probe []string) sample {
 	nn, _ := h.Namespaces(ctx)
 	s := sample{byName: map[string]bool{}}
 	for _, n := range nn {
-		s.names = append(s.names, n.Name)
+		s.names = append(s.names, renderNS(n))
 	}
 	sort.Strings(s.names)
 	for _, p := range probe {
 		if n, err := h.GetNamespaceByName(ctx, p); err == nil && n != nil {
-			s.byName[p] = true
+			s.byName[renderNS(n)] = true
 		}
 	}
 	return s
+}
+
+// renderNS: what is observed of a served namespace - its name, and its relations when it has any (two versions
+// of a file may declare the same names with different content)
+func renderNS(n *namespace.Namespace) string {
+	if len(n.Relations) == 0 {
+		return n.Name
+	}
+	var rs []string
+	for _, r := range n.Relations {
+		rs = append(rs, r.Name)
+	}
+	sort.Strings(rs)
+	return n.Name + "{" + strings.Join(rs, ",") + "}"
 }
 
 type outcome struct {
@@ -566,11 +584,16 @@ func TestC19(t *testing.T) {
 	if shard == 1%nshards {
 		lookupSetExecs = configLookupVsSet(t, run, l)
 	}
+	httpCases := 0
+	if shard == 2%nshards {
+		httpCases = configHTTPLocations(t, run, l)
+	}
 	run.FinishPart(map[string]any{
 		"real_watcher_histories_confirmed":    realOK,
 		"real_watcher_histories_inconclusive": realInconclusive,
 		"config_reload_cases":                 reloadCases,
 		"config_lookup_vs_set_executions":     lookupSetExecs,
+		"config_http_location_pairs":          httpCases,
 		"states":                              cov.states,
 		"transitions":                         cov.trans,
 		"traces_validated_against_impl":       cov.execs,
@@ -857,4 +880,85 @@ func configLookupVsSet(t *testing.T, run *ev.Run, l *logrusx.Logger) int {
 		})
 	}
 	return execs
+}
+
+// configHTTPLocations: OPL documents served over http. Every ordered pair of locations that differ in path, in
+// the query string or only in one query parameter: the configuration is switched from the first to the second at
+// run time (and a second configuration object is created for the second while the first is alive); the
+// namespaces served must be those of the document AT THAT LOCATION (keto keeps fetched documents in a
+// process-wide cache).
+func configHTTPLocations(t *testing.T, run *ev.Run, l *logrusx.Logger) int {
+	docs := map[string]string{}
+	srv := httptest.NewServer(http.HandlerFunc(func(w http.ResponseWriter, r *http.Request) {
+		if d, ok := docs[r.URL.RequestURI()]; ok {
+			_, _ = w.Write([]byte(d))
+			return
+		}
+		w.WriteHeader(404)
+	}))
+	defer srv.Close()
+	uris := []string{"/opl/a", "/opl/b", "/opl?tenant=a", "/opl?tenant=b", "/opl?tenant=a&v=2", "/opl/a?tenant=b"}
+	nameOf := map[string]string{}
+	for i, u := range uris {
+		nameOf[u] = fmt.Sprintf("Loc%d", i)
+		docs[u] = oplDoc(nameOf[u])
+	}
+	served := func(k *config.Config, ctx context.Context) string {
+		nm, err := k.NamespaceManager()
+		if err != nil {
+			return "error:" + err.Error()
+		}
+		nn, err := nm.Namespaces(ctx)
+		if err != nil {
+			return "error:" + err.Error()
+		}
+		var out []string
+		for _, n := range nn {
+			out = append(out, n.Name)
+		}
+		sort.Strings(out)
+		return strings.Join(out, ",")
+	}
+	mk := func(ctx context.Context, u string) *config.Config {
+		ctx = configx.ContextWithConfigOptions(ctx, configx.WithValues(map[string]any{config.KeyDSN: "memory", "log.level": "panic", config.KeyNamespaces: map[string]any{"location": srv.URL + u}}))
+		k, err := config.NewDefault(ctx, nil, l)
+		if err != nil {
+			t.Fatalf("INFRA: config: %v", err)
+		}
+		return k
+	}
+	cases := 0
+	reported := false
+	for _, u1 := range uris {
+		for _, u2 := range uris {
+			if u1 == u2 || reported {
+				continue
+			}
+			ctx, cancel := context.WithCancel(context.Background())
+			k := mk(ctx, u1)
+			first := served(k, ctx)
+			time.Sleep(15 * time.Millisecond) // (courtesy to keto's asynchronous document cache; not an oracle)
+			first = served(k, ctx)
+			if err := k.Set(config.KeyNamespaces, map[string]any{"location": srv.URL + u2}); err != nil {
+				t.Fatalf("INFRA: set: %v", err)
+			}
+			second := served(k, ctx)
+			other := served(mk(ctx, u2), ctx)
+			cases++
+			rep := map[string]any{"family": "config-http-locations", "first": u1, "second": u2}
+			switch {
+			case first != nameOf[u1]:
+				reported = true
+				run.Violation("http-location:wrong-document", fmt.Sprintf("OPL location %s serves namespaces [%s], the document there declares [%s]", u1, first, nameOf[u1]), rep)
+			case second != nameOf[u2]:
+				reported = true
+				run.Violation("http-location:document-of-another-location", fmt.Sprintf("the OPL location was switched from %s to %s at run time: namespaces served [%s], the document at the new location declares [%s]", u1, u2, second, nameOf[u2]), rep)
+			case other != nameOf[u2]:
+				reported = true
+				run.Violation("http-location:document-of-another-location", fmt.Sprintf("a second configuration with OPL location %s (another one with %s exists in the process): namespaces served [%s], the document there declares [%s]", u2, u1, other, nameOf[u2]), rep)
+			}
+			cancel()
+		}
+	}
+	return cases
 }
